@@ -59,15 +59,16 @@ func (e *Engine) loModel(fr *frame, ins ssa.Instruction, name string, fn *ssa.Fu
 			// index the slice): new[off+r] == old[off+P[r]]; outside: unchanged
 			r := e.sc.freshName("sr")
 			at := e.sc.addS(sv.Off, r)
+			// (on paths that do not reach the call nw is the old content, element by element)
+			perm := sel(old, app("bvadd", sv.Off, sel(P, r)))
+			if e.guard != "true" {
+				perm = ite(e.guard, perm, sel(old, at))
+			}
 			e.sc.addTagged("sort", fmt.Sprintf("(assert (forall ((%s %s)) (! %s :pattern (%s))))", r, SI64,
-				implies(inr(r), eq(sel(nw, at), sel(old, app("bvadd", sv.Off, sel(P, r))))), sel(nw, at)))
+				implies(inr(r), eq(sel(nw, at), perm)), sel(nw, at)))
 			j := e.sc.freshName("sj")
 			out := or(app("bvslt", j, sv.Off), app("bvsge", j, app("bvadd", sv.Off, n)))
 			e.sc.addTagged("sort", fmt.Sprintf("(assert (forall ((%s %s)) (! %s :pattern (%s))))", j, SI64, implies(out, eq(sel(nw, j), sel(old, j))), sel(nw, j)))
-			// nw is the content after the call; on paths that do not reach the call it is the old content
-			if e.guard != "true" {
-				e.sc.assume(implies(not(e.guard), eq(nw, old)))
-			}
 			heap[c.key] = e.sc.define("H_"+c.key, c.sort, sto(cur, sv.Arr, nw))
 			if !e.isFresh(sv.Arr) {
 				e.dirty[c.key] = true
